@@ -30,6 +30,9 @@ type c07Case struct {
 	Sib      model.HexBytes `json:"sib,omitempty"`       // one encoded leaf item that every level of the chain holds beside its nested list
 	SibPos   int            `json:"sib_pos,omitempty"`   // 0 before the nested list, 1 after it, 2 both
 	SibItems int            `json:"sib_items,omitempty"` // number of items that Sib encodes (0 = one)
+	RepKind  string         `json:"rep_kind,omitempty"` // an item of this kind whose payload is RepUnit repeated RepN times (refused values en masse)
+	RepUnit  model.HexBytes `json:"rep_unit,omitempty"`
+	RepN     int            `json:"rep_n,omitempty"`
 	Truncate int            `json:"truncate,omitempty"`
 	Patch    bool           `json:"patch,omitempty"` // rewrite the outer length to match
 	// History: inputs decoded by the same worker process right before this one (the decoder must not carry
@@ -51,6 +54,15 @@ func (c c07Case) input() ([]byte, error) {
 			return nil, err
 		}
 		in = b
+	case c.RepN > 0:
+		n := c.RepN * len(c.RepUnit)
+		in = append(in, c07Header...)
+		in = append(in, wrapInLists(nil, c.Depth)...)
+		in = append(in, byte(model.FormatCode(c.RepKind)<<2|3), byte(n>>16), byte(n>>8), byte(n))
+		for i := 0; i < c.RepN; i++ {
+			in = append(in, c.RepUnit...)
+		}
+		in = patchLen(in)
 	case c.Depth > 0 || c.Gen == "chain":
 		in = append(in, c07Header...)
 		var tail []byte
@@ -211,7 +223,19 @@ func wrapInLists(core []byte, depth int) []byte {
 }
 
 func genC07(t *rapid.T) c07Case {
-	switch rapid.IntRange(0, 12).Draw(t, "class") {
+	switch rapid.IntRange(0, 13).Draw(t, "class") {
+	case 13:
+		// one item full of values that its constructor refuses (NaN, infinities, non-ASCII bytes): refused, at linear cost
+		type unit struct {
+			kind string
+			b    []byte
+		}
+		u := rapid.SampledFrom([]unit{
+			{model.F4, []byte{0x7F, 0xC0, 0, 0}}, {model.F4, []byte{0xFF, 0xFF, 0xFF, 0xFF}}, {model.F4, []byte{0x7F, 0x80, 0, 0}}, {model.F4, []byte{0xFF, 0x80, 0, 0}},
+			{model.F8, []byte{0x7F, 0xF8, 0, 0, 0, 0, 0, 0}}, {model.F8, []byte{0xFF, 0xF0, 0, 0, 0, 0, 0, 0}}, {model.F8, []byte{0xFF, 0xFF, 0xFF, 0xFF, 0xFF, 0xFF, 0xFF, 0xFF}},
+			{model.F4, []byte{0x3F, 0x80, 0, 0, 0x7F, 0xC0, 0, 0}}, {model.A, []byte{0xE9}}, {model.A, []byte{0x61, 0x80}}, {model.A, []byte{0xFF}},
+		}).Draw(t, "refusedUnit")
+		return c07Case{Gen: "item-of-refused-values", RepKind: u.kind, RepUnit: u.b, RepN: rapid.IntRange(100, 12000).Draw(t, "repN"), Depth: rapid.SampledFrom([]int{0, 0, 1, 3}).Draw(t, "depth")}
 	case 0, 1, 2, 3:
 		// a short input declaring a huge length, at some nesting depth
 		kind := rapid.SampledFrom(model.AllKinds).Draw(t, "kind")
